@@ -4,6 +4,7 @@ import (
 	"crypto/tls"
 	"fmt"
 	"github.com/fabiolb/fabio/config"
+	"github.com/fabiolb/fabio/proxy/tcp"
 	"net"
 	"time"
 
@@ -27,7 +28,7 @@ func ListenTCP(l config.Listen, cfg *tls.Config) (net.Listener, error) {
 
 	// enable PROXY protocol support
 	if l.ProxyProto {
-		ln = &proxyproto.Listener{
+		ln = &proxyProtoListener{
 			Listener:           ln,
 			ProxyHeaderTimeout: l.ProxyHeaderTimeout,
 		}
@@ -39,6 +40,32 @@ func ListenTCP(l config.Listen, cfg *tls.Config) (net.Listener, error) {
 	}
 
 	return &tcpListener{ln, addr, cfg}, nil
+}
+
+// proxyProtoListener accepts connections which may start with a PROXY
+// protocol header like proxyproto.Listener does. The connections it returns
+// can in addition shut down their write side (TCP half-close) which
+// proxyproto.Conn does not pass on to the connection it wraps.
+type proxyProtoListener struct {
+	net.Listener
+	ProxyHeaderTimeout time.Duration
+}
+
+func (ln *proxyProtoListener) Accept() (net.Conn, error) {
+	c, err := ln.Listener.Accept()
+	if err != nil {
+		return nil, err
+	}
+	return &proxyProtoConn{proxyproto.NewConn(c, ln.ProxyHeaderTimeout), c}, nil
+}
+
+type proxyProtoConn struct {
+	*proxyproto.Conn
+	raw net.Conn
+}
+
+func (c *proxyProtoConn) CloseWrite() error {
+	return tcp.CloseWrite(c.raw)
 }
 
 type tcpListener struct {
